@@ -14,22 +14,22 @@ From Verif Require Import Base.Prelude Base.Bytes.
 Local Open Scope N_scope.
 
 (* ---------- data ---------- *)
-Record offset := O { o_uuid : N; o_seq : N; o_start : N; o_end : N; o_latest : N }.
-Record doc := D { d_uuid : N; d_seq : N; d_start : N; d_end : N }.
+Record offset := MkO { o_uuid : N; o_seq : N; o_start : N; o_end : N; o_latest : N }.
+Record doc := MkD { d_uuid : N; d_seq : N; d_start : N; d_end : N }.
 
 Definition fmap (A : Type) := N -> option A.
 Definition fempty {A} : fmap A := fun _ => None.
 Definition fupd {A} (m : fmap A) (k : N) (v : A) : fmap A := fun k' => if k' =? k then Some v else m k'.
 
-Definition doc_of (o : offset) : doc := D (o_uuid o) (o_seq o) (o_start o) (o_end o).
-Definition empty_doc : doc := D 0 0 0 0.
+Definition doc_of (o : offset) : doc := MkD (o_uuid o) (o_seq o) (o_start o) (o_end o).
+Definition empty_doc : doc := MkD 0 0 0 0.
 
 Inductive dkind := KMut | KDel | KExp.
 Inductive syskind := SCreateColl | SDeleteColl | SFlushColl | SCreateScope | SDeleteScope | SModifyColl.
 
 (* a document event as the server sent it; [i_rest] stands for value, revNo, flags, expiry, datatype,
    lock time ... (the harness checks them field by field on the Go side and numbers them here) *)
-Record item := I { i_seq : N; i_cas : N; i_cid : N; i_key : bytes; i_rest : N }.
+Record item := MkI { i_seq : N; i_cas : N; i_cid : N; i_key : bytes; i_rest : N }.
 
 Inductive ev :=
   | Marker (s e : N)
@@ -90,7 +90,7 @@ Definition need_catchup (cu : option N) (seq : N) : option N * bool :=
 Definition in_snap (sn : option (N * N)) (seq : N) : bool :=
   match sn with Some (s, e) => (s <=? seq) && (seq <=? e) | None => false end.
 
-Definition mk_offset (o : obs) (s e seq : N) : offset := O (ob_uuid o) seq s e (ob_latest o).
+Definition mk_offset (o : obs) (s e seq : N) : offset := MkO (ob_uuid o) seq s e (ob_latest o).
 
 (* what an observer hands to the stream's listener *)
 Inductive fwd :=
@@ -244,11 +244,11 @@ Definition get0 (m : fmap N) (vb : N) : N := match m vb with Some x => x | None 
 Definition load_one (c : cfg) (exist : bool) (st : fmap doc) (high uuid0 : fmap N) (vb : N) : option (offset * bool) :=
   let h := get0 high vb in
   if negb exist && c_latest c then
-    Some (O (get0 uuid0 vb) h h h (latest_of c h), negb (h =? 0))
+    Some (MkO (get0 uuid0 vb) h h h (latest_of c h), negb (h =? 0))
   else
     let d := loaded_doc st vb in
     if h <? d_seq d then None
-    else Some (O (d_uuid d) (d_seq d) (d_start d) (d_end d) (latest_of c h), false).
+    else Some (MkO (d_uuid d) (d_seq d) (d_start d) (d_end d) (latest_of c h), false).
 
 Fixpoint load_all (c : cfg) (exist : bool) (st : fmap doc) (high uuid0 : fmap N) (vbs : list N)
   : option (fmap offset * fmap bool * bool) :=
